@@ -55,6 +55,8 @@ def spellings():
                             expect=[("read", ("slot", slot, False), flag, w)]))
             # write (sources can be assigned too: the compiler upgrades them to read-write)
             out.append(dict(name=f"write;{tok}", text=f"{{ {tok} = {src_for(slot, 64)}; }}", expect=[("write", ("slot", slot, False), w)]))
+            # read after write: the later read must see the value written by this behaviour (differential only)
+            out.append(dict(name=f"rw;{tok}", text=f"{{ {tok} = {tok} + {src_for(slot, w)}; {dest_for(slot, w)} = (int64_t) {tok}; {tok} = {tok} ^ 5; }}", expect=[]))
         for ids in SRC1 + SRC2:
             w = width_of(cls, ids)
             tok = f"{cls}{ids}N"
@@ -70,11 +72,13 @@ def spellings():
         out.append(dict(name=f"read;{tok}", text=f"{{ RddV = (int64_t) {tok}; }}", expect=[("read", ("expl", klass, num, False), False, w)]))
         out.append(dict(name=f"read;{tok}_NEW", text=f"{{ RddV = (int64_t) {tok}_NEW; }}", expect=[("read", ("expl", klass, num, True), True, w)]))
         out.append(dict(name=f"write;{tok}", text=f"{{ RdV = 1; {tok} = RssV; }}", expect=[("write", ("expl", klass, num, False), w)]))
+        out.append(dict(name=f"rw;{tok}", text=f"{{ {tok} = {tok} + RsV; RddV = (int64_t) {tok}; }}", expect=[]))
     for a in ALIASES:
         w = 64 if a in CO.ALIAS64 else 32
         out.append(dict(name=f"read;alias;{a}", text=f"{{ RddV = (int64_t) HEX_REG_ALIAS_{a}; }}", expect=[("read", ("alias", a, False), False, w)]))
         out.append(dict(name=f"read;alias;{a}_NEW", text=f"{{ RddV = (int64_t) HEX_REG_ALIAS_{a}_NEW; }}", expect=[("read", ("alias", a, True), True, w)]))
         out.append(dict(name=f"write;alias;{a}", text=f"{{ HEX_REG_ALIAS_{a} = RssV; }}", expect=[("write", ("alias", a, False), w)]))
+        out.append(dict(name=f"rw;alias;{a}", text=f"{{ HEX_REG_ALIAS_{a} = HEX_REG_ALIAS_{a} + RsV; RddV = (int64_t) HEX_REG_ALIAS_{a}; }}", expect=[]))
     out.append(dict(name="read;alias;PC", text="{ RddV = (int64_t) HEX_REG_ALIAS_PC; ReV = HEX_REG_ALIAS_PC + siV; }", expect=[("pc",)]))
     # immediates
     for l in "rRsSuUmn":
@@ -115,6 +119,42 @@ def spellings():
     out.append(dict(name="jump;cond", text="{ if (PuV & 1) { JUMP(HEX_REG_ALIAS_PC + riV); } }", expect=[("jump",)]))
     out.append(dict(name="jump;imm", text="{ HEX_REG_ALIAS_LR = HEX_REG_ALIAS_PC + 4; JUMP(riV); }", expect=[("jump",)]))
     return out
+
+
+def lift_order(rzil):
+    """The plugin's READ_REG(pkt, op, false) decides when it is CALLED (while the effect is built) whether it reads the register or its
+    _tmp copy ("Rx is always read newly. Since we read the _tmp reg after it was written once", Register.py). A pure variable initialised
+    with such a read BEFORE a WRITE_REG of the same operand therefore holds the old register; using that variable in a declaration that
+    comes AFTER the write reads a stale value. -> list of problems (textual order of the declarations = call order)"""
+    probs = []
+    b = IL.parse_body(rzil)
+
+    def key(t):
+        while isinstance(t, tuple) and t and t[0] in ("addr", "DUP"):
+            t = t[1]
+        return t[1] if isinstance(t, tuple) and t and t[0] == "id" else repr(t)
+
+    deps = {}       # pure variable -> {operand key: index of the declaration whose READ_REG call fetched it}
+    writes = {}     # operand key -> indices of declarations that call WRITE_REG on it
+    for idx, (ty, ptr, name, term) in enumerate(b.decls):
+        mine = {}
+        for n in IL.walk(term):
+            if not isinstance(n, tuple) or not n:
+                continue
+            if n[0] == "READ_REG" and n[3] == ("id", "false"):
+                mine.setdefault(key(n[2]), idx)
+            elif n[0] == "id" and n[1] in deps:
+                for k, i0 in deps[n[1]].items():
+                    stale = [w for w in writes.get(k, []) if i0 < w < idx]
+                    if stale:
+                        probs.append(f"{name} uses {n[1]}, which was read from {k} before the WRITE_REG of {k} (declarations {i0} < {stale[0]} < {idx}): stale read")
+                    mine.setdefault(k, i0)
+        for n in IL.walk(term):
+            if isinstance(n, tuple) and n and n[0] == "WRITE_REG":
+                writes.setdefault(key(n[2]), []).append(idx)
+        if ty == "RzILOpPure" or ty == "RzILOpBool":
+            deps[name] = mine
+    return probs
 
 
 def structural(src, rzil, expect):
@@ -203,13 +243,43 @@ def main(tier):
     for p in progs:
         it = p.extra["item"]
         try:
-            probs = structural(p.src, p.rzil, it["expect"])
+            probs = structural(p.src, p.rzil, it["expect"]) + lift_order(p.rzil)
         except IL.ILSyntaxError as e:
             probs = [f"emitted text unreadable: {e}"]
         if probs:
             run.violation(f"operand binding ({it['name']}): {probs[0]} :: `{p.src}`", {"kind": "structural", "name": it["name"], "text": p.src, "problems": probs, "emitted": p.rzil}, key="struct:" + it["vkey"])
         else:
             struct_ok += 1
+    # the lift-order monitor over emitted texts of the corpus (quick: sample) and of statement programs with re-read registers
+    from .. import corpus as CORP, gen
+
+    names = CORP.stratified_sample(S.behaviors, 200, run.seed) if tier == "quick" else sorted(S.behaviors)
+    lift_texts = 0
+    for nm, r in zip(names, S.compile_insns(names)):
+        if not r.get("ok"):
+            continue
+        for i, z in enumerate(r["rzil"]):
+            lift_texts += 1
+            try:
+                pr = lift_order(z)
+            except IL.ILSyntaxError:
+                continue
+            if pr:
+                run.violation(f"operand binding ({nm}#{i}): {pr[0]}", {"kind": "lift_order", "insn": nm, "part": i, "problems": pr, "emitted": z}, key="lift:corpus")
+    g = gen.G(random.Random(run.seed + 11), avoid=("const_cond",))
+    gtexts = [g.program(depth=2, nstmts=(2, 6))[0] for _ in range(120 if tier == "quick" else 1500)]
+    gtexts += ["{ RdV = RsV; RsV = RtV + 1; ReV = RsV; }", "{ RxV = RxV + 1; if (RsV) { RxV = RxV * 2; } RdV = RxV; }", "{ RyyV = RyyV + RssV; RddV = RyyV; }", "{ PxV = PxV & PsV; PdV = PxV; }",
+               "{ RddV = RssV; RssV = RttV; RyyV = RssV; }", "{ for (i = 0; i < 3; i++) { RxV = RxV + RsV; } RdV = RxV; }", "{ P0 = RsV; RdV = P0; P0 = P0 + 1; ReV = P0; }"]
+    for t, r in zip(gtexts, S.compile_stmts([dict(text=t) for t in gtexts])):
+        if not r.get("ok"):
+            continue
+        lift_texts += 1
+        try:
+            pr = lift_order(r["rzil"])
+        except IL.ILSyntaxError:
+            continue
+        if pr:
+            run.violation(f"operand binding: {pr[0]} :: `{t[:120]}`", {"kind": "lift_order", "text": t, "problems": pr, "emitted": r["rzil"]}, key="lift:gen")
     nst = 16 if tier == "quick" else 96
     fam.differential(progs, nst, nontrivial=lambda p, r: r.changed > 0, key_of=lambda p: p.name)
     cov = fam.coverage()
@@ -218,7 +288,7 @@ def main(tier):
         "rule": "one case = (operand spelling program, bank state); distinct non-trivial = distinct accepted spellings whose structural expectations hold and "
                 "whose executions (independent values in old and new bank) all agree with C and change an observable",
         "samples": fam.samples or [{"note": "none"}], "spellings": len(sp), "spellings_accepted": len(progs), "spellings_rejected": len(sp) - len(progs),
-        "structural_ok": struct_ok, "states_per_spelling": nst,
+        "structural_ok": struct_ok, "states_per_spelling": nst, "texts_through_lift_order_monitor": lift_texts + len(progs),
     })
     run.assumptions = ["operand table = DESIGN appendix C (register classes and widths, documented signedness, immediate letters)",
                        "alias/explicit registers that are read and assigned through the plain spelling start with equal banks (lenient point of DESIGN section 3)"]
